@@ -1,9 +1,12 @@
 """C04 — hash enumeration and clear reach every element exactly once, even mid-rehash
 (area hash: model lean/Cstl/Hash, harness harness/hash.c, generators and oracle tools/areas/hash.py)"""
 from areas import hash as H
+from areas import hashl
 
 
 def run(chk):
+    # pointer level: chains as links through the elements' node fields refine the list-level model
+    hashl.link_level_run(chk)
     return H.run_prop(chk)
 
 
